@@ -312,6 +312,7 @@ func visitInstr(fr *frame, instr ssa.Instruction) continuation {
 
 	case *ssa.MakeMap:
 		m := makeMap(instr.Type().Underlying().(*types.Map).Key(), 0).(*omap)
+		m.elemT = instr.Type().Underlying().(*types.Map).Elem()
 		i.nextMapID++
 		m.id = i.nextMapID
 		i.onMakeMap(fr, instr, m)
